@@ -68,6 +68,7 @@ type c31Case struct {
 	RdmMap     bool       // map form (Conway+)
 	RdmExplEmp bool       // explicit empty redeemers field (Alonzo/Babbage)
 	RdmStyled  *xcbor.Node
+	RdmDup     string // "" | same-value | different-value: the map carries a duplicated (tag,index) key
 	NDatums    int // -1 = no datums field
 	Datums     *xcbor.Node
 	CM         map[uint][]int64
@@ -272,7 +273,25 @@ func genC31(rt *rapid.T) *c31Case {
 				c.Redeemers[i], c.Redeemers[j] = c.Redeemers[j], c.Redeemers[i]
 			}
 		}
-		c.RdmStyled = redeemersNode(c.Redeemers, c.RdmMap)
+		entries := c.Redeemers
+		if c.RdmMap && rapid.IntRange(0, 3).Draw(rt, "rdmDuplicateKey") == 0 {
+			// a duplicated (tag, index) key: cardano-node decodes the map last-wins
+			src := rapid.IntRange(0, len(entries)-1).Draw(rt, "dupSrc")
+			d := entries[src]
+			if rapid.Bool().Draw(rt, "dupOtherValue") {
+				d.Data = genPlutusData(rt, 1)
+				d.Mem, d.Steps = d.Mem+1, d.Steps+7
+				c.RdmDup = "different-value"
+			} else {
+				c.RdmDup = "same-value"
+			}
+			at := rapid.IntRange(0, len(entries)).Draw(rt, "dupAt")
+			entries = append(append(append([]Redeemer{}, entries[:at]...), d), entries[at:]...)
+		}
+		c.RdmStyled = redeemersNode(entries, c.RdmMap)
+		if c.RdmMap && rapid.IntRange(0, 3).Draw(rt, "rdmIndefMap") == 0 {
+			c.RdmStyled.Indef = true
+		}
 	} else if era <= Babbage && rapid.IntRange(0, 5).Draw(rt, "rdmExplicitEmpty") == 0 {
 		c.RdmExplEmp = true
 		c.RdmStyled = xcbor.A()
@@ -460,6 +479,8 @@ func TestC31(t *testing.T) {
 		}
 	}
 
+	dupKeySweep(rec)
+
 	rec.Check(func(rt *rapid.T) {
 		c := genC31(rt)
 		era := c.Era
@@ -559,6 +580,13 @@ func TestC31(t *testing.T) {
 		pr := defaultParams(era)
 		pr.CostModels = c.CM
 		pp := pr.forEra(era)
+		checkKeptBytes(func(key, what string) bool { return rec.Fail(rt, key, what, c.sample(raw, v.name)) }, era, ltx, rdOrig, dOrig, "generated")
+		if c.RdmDup != "" {
+			rec.Class("redeemers_map_duplicate_key_" + c.RdmDup)
+		}
+		if c.RdmStyled != nil && c.RdmStyled.Kind == xcbor.Map && c.RdmStyled.Indef {
+			rec.Class("redeemers_indefinite_map")
+		}
 
 		// classes
 		rec.Class("era_" + era.String())
@@ -734,6 +762,154 @@ func TestC31(t *testing.T) {
 			}
 		}
 	})
+}
+
+// keptBytes returns the bytes the library stored for the redeemers / datums
+// fields of a decoded transaction.
+func keptBytes(tx common.Transaction) (rdm, dat []byte, ok bool) {
+	switch t := tx.(type) {
+	case *alonzo.AlonzoTransaction:
+		return t.WitnessSet.WsRedeemers.Cbor(), t.WitnessSet.WsPlutusData.Cbor(), true
+	case *babbage.BabbageTransaction:
+		return t.WitnessSet.WsRedeemers.Cbor(), t.WitnessSet.WsPlutusData.Cbor(), true
+	case *conway.ConwayTransaction:
+		return t.WitnessSet.WsRedeemers.Cbor(), t.WitnessSet.WsPlutusData.Cbor(), true
+	case *dijkstra.DijkstraTransaction:
+		return t.WitnessSet.WsRedeemers.Cbor(), t.WitnessSet.WsPlutusData.Cbor(), true
+	}
+	return nil, nil, false
+}
+
+// checkKeptBytes: the original-bytes accessors of the witness set return exactly
+// the bytes the harness wrote (the hash rule reads them).
+func checkKeptBytes(fail func(key, what string) bool, era Era, tx common.Transaction, rdOrig, dOrig []byte, form string) {
+	rd, da, ok := keptBytes(tx)
+	if !ok {
+		fail("C31:"+era.String()+":unexpected-transaction-type", fmt.Sprintf("decoder returned %T", tx))
+		return
+	}
+	if rdOrig != nil && !bytes.Equal(rd, rdOrig) {
+		fail("C31:"+era.String()+":original-bytes-not-kept:redeemers", fmt.Sprintf("WsRedeemers.Cbor() = %x, the transaction carries %x (%s)", rd, rdOrig, form))
+	}
+	if dOrig != nil && !bytes.Equal(da, dOrig) {
+		fail("C31:"+era.String()+":original-bytes-not-kept:datums", fmt.Sprintf("WsPlutusData.Cbor() = %x, the transaction carries %x (%s)", da, dOrig, form))
+	}
+}
+
+// dupKeySweep: deterministic cases with a redeemers MAP that carries a duplicated
+// (tag, index) key, in Conway and Dijkstra, for every language of the era, with and
+// without datums, in several encodings. The declared hash is the reference hash over
+// the original bytes; whenever the library accepts the witness set it must keep the
+// bytes, and it must not accept any other hash.
+func dupKeySweep(rec *evi.Recorder) {
+	type form struct {
+		name  string
+		build func(base []Redeemer, dup Redeemer) []Redeemer
+	}
+	forms := []form{
+		{"dup-adjacent-after", func(b []Redeemer, d Redeemer) []Redeemer { return []Redeemer{b[0], d, b[1], b[2]} }},
+		{"dup-first", func(b []Redeemer, d Redeemer) []Redeemer { return []Redeemer{d, b[1], b[2], b[0]} }},
+		{"dup-last-far-apart", func(b []Redeemer, d Redeemer) []Redeemer { return []Redeemer{b[0], b[1], b[2], d} }},
+		{"dup-of-middle-key-reverse-order", func(b []Redeemer, d Redeemer) []Redeemer {
+			d.Tag, d.Index = b[1].Tag, b[1].Index
+			return []Redeemer{b[2], d, b[1], b[0]}
+		}},
+		{"only-the-duplicated-key", func(b []Redeemer, d Redeemer) []Redeemer { return []Redeemer{b[0], d} }},
+		// control without a duplicate (Dijkstra's decoder rejects duplicated keys)
+		{"no-duplicate-reverse-order", func(b []Redeemer, d Redeemer) []Redeemer { return []Redeemer{b[2], b[1], b[0]} }},
+	}
+	styles := []string{"canonical", "indefinite-map", "non-minimal-map-head", "non-minimal-index"}
+	n := 0
+	for _, era := range []Era{Conway, Dijkstra} {
+		for lang := 1; lang <= maxLang(era); lang++ {
+			for _, f := range forms {
+				for _, sameValue := range []bool{true, false} {
+					for _, withDatums := range []bool{false, true} {
+						for _, style := range styles {
+							c := &c31Case{Era: era, IsValid: true, NDatums: -1, RdmMap: true, SetTag: lang%2 == 0,
+								CM:      map[uint][]int64{0: {1, 2}, 1: {3, 4, 5}, 2: {6}, 3: {7, -8}},
+								Scripts: []pScript{{Lang: lang, Bytes: []byte{1, 0, 0, byte(lang)}, Role: roleWitNeeded, NoRdm: true}}}
+							c.layout(nil)
+							// input #0/#1 are the payer and the script-locked input (sorted order irrelevant here)
+							base := []Redeemer{
+								{Tag: 0, Index: 0, Data: xcbor.U(1), Mem: 10, Steps: 20},
+								{Tag: 0, Index: 1, Data: xcbor.Tg(121, xcbor.A()), Mem: 11, Steps: 21},
+								{Tag: 1, Index: 0, Data: xcbor.B([]byte{0xca, 0xfe}), Mem: 12, Steps: 22},
+							}
+							dup := base[0]
+							if !sameValue {
+								dup.Data, dup.Mem, dup.Steps = xcbor.U(2), 99, 98
+								c.RdmDup = "different-value"
+							} else {
+								c.RdmDup = "same-value"
+							}
+							entries := f.build(base, dup)
+							c.Redeemers = entries
+							c.RdmStyled = redeemersNode(entries, true)
+							switch style {
+							case "indefinite-map":
+								c.RdmStyled.Indef = true
+							case "non-minimal-map-head":
+								c.RdmStyled.Width = 2
+							case "non-minimal-index":
+								c.RdmStyled.Items[0].Items[1].Width = 4
+							}
+							if withDatums {
+								c.NDatums = 1
+								c.Datums = xcbor.A(xcbor.U(42))
+								if c.SetTag {
+									c.Datums = xcbor.Tg(258, c.Datums)
+								}
+							}
+							desc := fmt.Sprintf("%s PlutusV%d %s %s datums=%v %s", era, lang, f.name, c.RdmDup, withDatums, style)
+							fail := func(key, what string) bool {
+								return rec.Violation(key, what+" ["+desc+"]", c.sample(c.assemble(nil), "correct"))
+							}
+							probe := c.assemble(nil)
+							rdOrig, dOrig := originalWitnessField(probe, 5), originalWitnessField(probe, 4)
+							used, _ := c.usedLanguages()
+							refHash := h256(refIntegrityPreimage(era, rdOrig, dOrig, c.NDatums, refLangViews(used, c.CM, LangViewOpts{})))
+							raw := c.assemble(refHash)
+							ltx, err := decodeTx(era, raw)
+							n++
+							if err != nil {
+								rec.Class("dupkey_sweep_decode_rejected_" + era.String())
+								continue
+							}
+							rec.Class("dupkey_sweep_decoded_" + era.String())
+							checkKeptBytes(fail, era, ltx, rdOrig, dOrig, desc)
+							pr := defaultParams(era)
+							pr.CostModels = c.CM
+							st, pp := c.state(), pr.forEra(era)
+							rerr := scriptDataHashRule(era)(ltx, 0, st, pp)
+							rec.Eval()
+							cs := c.sample(raw, "correct")
+							cs["tx_cbor_full"] = fmt.Sprintf("%x", raw)
+							cs["redeemers_original_bytes"] = fmt.Sprintf("%x", rdOrig)
+							rec.NonTrivial("dupkey "+desc, cs)
+							if rerr == nil {
+								rec.Class("dupkey_sweep_reference_hash_accepted")
+								continue
+							}
+							rec.Class("dupkey_sweep_over_reject:" + errClass(rerr))
+							var mm common.ScriptDataHashMismatchError
+							if errors.As(rerr, &mm) && !bytes.Equal(mm.Computed[:], refHash) {
+								raw2 := c.assemble(mm.Computed[:])
+								if ltx2, err2 := decodeTx(era, raw2); err2 == nil {
+									rec.Eval()
+									if scriptDataHashRule(era)(ltx2, 0, st, pp) == nil {
+										fail("C31:"+era.String()+":duplicate-key-redeemer-map:accepted-hash-not-over-original-bytes",
+											fmt.Sprintf("%s.UtxoValidateScriptDataHash rejects the hash over the original redeemer bytes %x (reference %x) and accepts %x instead", era, rdOrig, refHash, mm.Computed[:]))
+									}
+								}
+							}
+						}
+					}
+				}
+			}
+		}
+	}
+	rec.SetExtra("n_duplicate_key_sweep_cases", n)
 }
 
 // unusedRoles lists the roles of the scripts whose language is not among the used ones.
